@@ -2,7 +2,7 @@ PROP = dict(
     harness="c03", level="exploration",
     make=["build/bin/c03"],
     extra_args=["--mode=c04"],
-    quick=dict(cases=48000, max_size=60, workers=16),
+    quick=dict(cases=160000, max_size=60, workers=16),
     thorough=dict(cases=2400000, max_size=150, workers=16, timeout=7200),
     rule=("the C03 program generator plus absolute references (embed_label 4/8, x86-32 [label+disp] and [abs], x86-64 [abs] with default/abs/rel addressing "
           "and fs/gs, jmp/call to absolute targets incl. address-table routing, moffs mov, AArch64 b/bl to absolute addresses) x 12 base addresses (low, "
